@@ -8,6 +8,7 @@ import (
 	"bytes"
 	"context"
 	"crypto/ecdsa"
+	"crypto/rsa"
 	"crypto/sha256"
 	"net/http"
 	"time"
@@ -26,6 +27,10 @@ func Harness_C01_x509() {
 	li := envLogInfo(be, rl)
 	sig := vBytes("sig", 1+vChoice("sig-len", 3))
 	sg := &envSigner{pub: &ecdsa.PublicKey{}, sig: sig}
+	wantAlg := byte(tls.ECDSA)
+	if vChoice("log-key-type", 2) == 1 {
+		sg.pub, wantAlg = &rsa.PublicKey{}, byte(tls.RSA)
+	}
 	li.signer = sg
 	sec := vI64("clock.sec")
 	nsec := int64(vU32("clock.nsec") & 0x3fffffff)
@@ -86,6 +91,6 @@ func Harness_C01_x509() {
 	vAssert(len(sg.digests) == 1, "exactly one signature made")
 	want := sha256.Sum256(rfcSCTSignatureInput(wantTS, false, ders[0], nil, nil, nil))
 	vAssert(bytes.Equal(sg.digests[0], want[:]), "signed digest is SHA-256 of the RFC 6962 SCT signature input for the submitted entry at the SCT's timestamp")
-	vAssert(bytes.Equal(rsp.Signature, rfcDigitallySigned(byte(tls.SHA256), byte(tls.ECDSA), sig)), "signature field is the DigitallySigned of the signer's output with (sha256, key algorithm)")
+	vAssert(bytes.Equal(rsp.Signature, rfcDigitallySigned(byte(tls.SHA256), wantAlg, sig)), "signature field is the DigitallySigned of the signer's output with (sha256, key algorithm)")
 	vAssert(rl.issued == 1, "SCT recorded as issued once")
 }
